@@ -418,7 +418,7 @@ PROPS["C13"] = dict(
         "c13_fail_stop": "for every workload and fault plan: if operation i reported an error then every later insert / remove / clear / non-empty batch / commit / persist returns Poisoned",
         "c13_error_poisons": "every write path sets the poison flag on any journal I/O error (incl. the append of a batch / clear marker, finding F8 fixed)",
     },
-    engines=[dict(bin="fault", args=["--mode", "c13"], cases_quick=64, cases_thorough=2000, profiles=["release"], shards=8, timeout_quick=900)],
+    engines=[dict(bin="fault", args=["--mode", "c13"], cases_quick=64, cases_thorough=600, profiles=["release"], shards=8, timeout_quick=900)],
     rule="case = journal workload as for C09; for n in a sample of the journal syscalls (all n in thorough): the n-th and every later syscall fails with EIO / ENOSPC / "
          "after a short write; per-operation results must equal the model's; oracle: no acknowledgement after the first error; reopening without faults yields a "
          "prefix of the acknowledged operations containing everything acknowledged up to the last acknowledged buffer flush, optionally followed by whole failed "
